@@ -87,6 +87,19 @@ type c02P2s struct {
 	S string `vgirpc:"s"`
 }
 
+// c02Inner is an embedded ArrowSerializable parameter (method n1; exercised by C03).
+type c02Inner struct {
+	X int64 `arrow:"x"`
+}
+
+func (c02Inner) ArrowSchema() *arrow.Schema {
+	return arrow.NewSchema([]arrow.Field{{Name: "x", Type: arrow.PrimitiveTypes.Int64}}, nil)
+}
+
+type c02PN struct {
+	Inner c02Inner `vgirpc:"inner"`
+}
+
 type c02Header struct {
 	V int64 `arrow:"hdr_v"`
 }
@@ -295,6 +308,9 @@ func c02NewServer(pvOn bool) *vgirpc.Server {
 		b, _ := strconv.ParseInt(strings.TrimPrefix(p.S, "s"), 10, 64)
 		return c02Unary(ctx, p.A, b, 0)
 	})
+	vgirpc.Unary(s, "n1", func(_ context.Context, ctx *vgirpc.CallContext, p c02PN) (int64, error) {
+		return c02Unary(ctx, p.Inner.X, 0, 0)
+	})
 	vgirpc.UnaryVoid(s, "v3", func(_ context.Context, ctx *vgirpc.CallContext, p c02P3) error {
 		_, err := c02Unary(ctx, p.A, p.B, p.C)
 		return err
@@ -398,7 +414,7 @@ func c02ParseStreams(words []string) ([]c02Stream, bool) {
 		}
 		out = append(out, st)
 	}
-	return out, len(out) >= 1 && len(out) <= 2
+	return out, len(out) >= 1
 }
 
 func c02ArrowType(t string) arrow.DataType {
@@ -413,17 +429,54 @@ func c02ArrowType(t string) arrow.DataType {
 		return arrow.PrimitiveTypes.Float64
 	case "bool":
 		return arrow.FixedWidthTypes.Boolean
-	case "binary":
+	case "binary", "payload":
 		return arrow.BinaryTypes.Binary
 	}
 	return nil
 }
 
-func c02BuildColumn(dt arrow.DataType, rows int, v int64) arrow.Array {
+// c02Payload builds the embedded ArrowSerializable payload of method n1 for script cell v:
+// v >= 0: a valid inner stream with x = v; -1: x is a utf8 column; -2: garbage bytes; -3: empty;
+// -4: a valid inner stream with zero rows. Only v >= 0 binds.
+func c02Payload(v int64) []byte {
+	mem := memory.NewGoAllocator()
+	enc := func(f arrow.Field, col arrow.Array, rows int64) []byte {
+		sch := arrow.NewSchema([]arrow.Field{f}, nil)
+		rec := array.NewRecordBatch(sch, []arrow.Array{col}, rows)
+		var buf bytes.Buffer
+		w := ipc.NewWriter(&buf, ipc.WithSchema(sch))
+		_ = w.Write(rec)
+		_ = w.Close()
+		return buf.Bytes()
+	}
+	switch {
+	case v >= 0:
+		b := array.NewInt64Builder(mem)
+		b.Append(v)
+		return enc(arrow.Field{Name: "x", Type: arrow.PrimitiveTypes.Int64}, b.NewArray(), 1)
+	case v == -1:
+		b := array.NewStringBuilder(mem)
+		b.Append("notanint")
+		return enc(arrow.Field{Name: "x", Type: arrow.BinaryTypes.String}, b.NewArray(), 1)
+	case v == -3:
+		return nil
+	case v == -4:
+		b := array.NewInt64Builder(mem)
+		return enc(arrow.Field{Name: "x", Type: arrow.PrimitiveTypes.Int64}, b.NewArray(), 0)
+	}
+	// garbage: legacy framing that declares a 4-byte metadata block which is not a flatbuffer
+	return []byte("\x04\x00\x00\x00junk")
+}
+
+func c02BuildColumn(code string, dt arrow.DataType, rows int, v int64) arrow.Array {
 	mem := memory.NewGoAllocator()
 	b := array.NewBuilder(mem, dt)
 	defer b.Release()
 	for r := 0; r < rows; r++ {
+		if code == "payload" {
+			b.(*array.BinaryBuilder).Append(c02Payload(v))
+			continue
+		}
 		switch bb := b.(type) {
 		case *array.Int64Builder:
 			bb.Append(v)
@@ -463,7 +516,7 @@ func c02Encode(w io.Writer, st c02Stream) error {
 			if i < len(b.cells) {
 				v = b.cells[i]
 			}
-			cols[i] = c02BuildColumn(fields[i].Type, b.rows, v)
+			cols[i] = c02BuildColumn(st.schema[i].typ, fields[i].Type, b.rows, v)
 		}
 		keys := make([]string, len(b.meta))
 		vals := make([]string, len(b.meta))
@@ -694,7 +747,7 @@ func c02Exec(c *Case) {
 		case f[0] == "op" && len(f) >= 4:
 			announce()
 			streams, ok := c02ParseStreams(f[2:])
-			if !ok {
+			if !ok || len(streams) > 2 {
 				c.Out(l, "err:bad-op")
 				continue
 			}
